@@ -461,7 +461,11 @@ func (g *gen) genExprCase(t *rapid.T) Case {
 	if rapid.IntRange(0, 2).Draw(t, "scoped") == 0 {
 		c = g.addScope(t, c)
 	}
-	return respell(t, c)
+	c = respell(t, c)
+	if c.Fam == "expr" && rapid.IntRange(0, 39).Draw(t, "history") == 0 {
+		c.History = pick(t, "historyN", []int{300, 300, 520})
+	}
+	return c
 }
 
 func (g *gen) genExprCase0(t *rapid.T) Case {
@@ -510,6 +514,7 @@ var pipeInits = []string{
 	"z10", "z08", "z007", "z0s", "sp", "sp2", "spl", "spt",
 	`errs['user[email]']`, `errs["tags[]"]`, `errs['a.b']`, `errs['two words']`, `errs["it's"]`, `errs['say "hi"']`, `errs['item[0][id]']`, `errs['sub[x]'].s`, `errs["sub[x]"]["n"]`, `errs['ok[]']`, `errs['sub[x]']`,
 	"xs[ix]", "ss[ix]", "m[kk]", "us[ix].name", "m[kb]",
+	"umax", "u63", "imax", "imin", "u32", "fbig", "negz",
 	"post.PublishedAt", "pt.at", "ts", "post.Views", "pm.k", `pm['k']`, "ptrs[1]", "pi", "post.Slug", "post.Author", "prec",
 	"s", "h", "e", "num", "pad", "m.name", `m["name"]`, `m['name']`, "m.inner.s", "ss[0]", "st.Name", "st.In.S", "us[0].name",
 	"t", "u", "m.ok", "bs[0]", "st.Ok",
@@ -974,6 +979,9 @@ func classify(c Case) (bool, []string) {
 	cls := []string{"fam=" + c.Fam, fmt.Sprintf("env=%d", c.Env)}
 	for _, p := range c.Pos {
 		cls = append(cls, "pos="+p)
+	}
+	if c.History > 0 {
+		cls = append(cls, "A:engine history (checked again after hundreds of other expressions)")
 	}
 	if c.Fam == "expr" || c.Fam == "pipe" {
 		sp := c.Spell
